@@ -14,8 +14,8 @@ CONFIGS = {
     "full": (["-p", "rln", "--features", "fullmerkletree"], ["rln.rlib", "zerokit_utils.rlib"]),
     "stateless": (["-p", "rln", "--no-default-features", "--features", "stateless"], ["rln.rlib", "zerokit_utils.rlib"]),
     "arkzkey": (["-p", "rln", "--features", "arkzkey"], ["rln.rlib", "zerokit_utils.rlib"]),
-    "cli": (["-p", "rln-cli", "--examples"], ["relay.executable", "rln_cli.executable", "rln.rlib"]),
-    "cli_stateless": (["-p", "rln-cli", "--examples", "--features", "stateless"], ["stateless.executable", "rln.rlib"]),
+    "cli": (["-p", "rln-cli", "--bins", "--example", "relay"], ["relay.executable", "rln_cli.executable", "rln.rlib"]),
+    "cli_stateless": (["-p", "rln-cli", "--example", "stateless", "--features", "stateless"], ["stateless.executable", "rln.rlib"]),
 }
 FIXTURE_CFG = "fixtures"
 
